@@ -397,6 +397,17 @@ func (a coArg) render(i int) string {
 		return a.Lit
 	case "throw":
 		return fmt.Sprintf("__thr(%d)", i)
+	case "date":
+		return "new Date(" + a.Lit + ")"
+	case "wrapnum":
+		return "new Number(" + a.Lit + ")"
+	case "wrapstr":
+		return "new String(" + harness.JSString(a.Lit) + ")"
+	case "arr1":
+		return "[" + harness.JSString(a.Lit) + "]"
+	case "objboth":
+		// valueOf answers with an object, so ToPrimitive(hint Number) goes on to toString (8.12.8)
+		return "({valueOf:function(){return {}},toString:function(){return " + harness.JSString(a.Lit) + "}})"
 	}
 	panic("kind")
 }
@@ -405,8 +416,17 @@ func (a coArg) toNumber() float64 {
 	switch a.Kind {
 	case "num", "obj":
 		return parseLit(a.Lit)
-	case "str", "objstr":
+	case "str", "objstr", "wrapstr", "arr1", "objboth":
 		return es5.StringToNumber(harness.UTF16(a.Lit))
+	case "wrapnum":
+		return parseLit(a.Lit)
+	case "date":
+		// ToNumber(Date) = ToPrimitive with hint Number = valueOf = the time value, TimeClip of the argument (15.9.3.2, 15.9.1.14)
+		t := parseLit(a.Lit)
+		if math.IsNaN(t) || math.Abs(t) > 8.64e15 {
+			return math.NaN()
+		}
+		return math.Trunc(t) + 0
 	case "undef":
 		return math.NaN()
 	case "null":
@@ -520,17 +540,19 @@ type predCase struct {
 
 var predFacet = harness.Register(&harness.Facet[predCase]{
 	Name:     "isnan-isfinite",
-	Rule:     "rapid: isNaN/isFinite on numbers from the boundary pool, numeric and junk strings (with white space, hex, signs), booleans, null, undefined, objects with valueOf/toString; oracle: ToNumber model (9.3, 9.3.1); non-trivial = argument is not a number literal; distinct by (function, argument)",
+	Rule:     "rapid: isNaN/isFinite on numbers from the boundary pool, numeric and junk strings (with white space, hex, signs), booleans, null, undefined, objects with valueOf/toString (valueOf returning a primitive, or an object so that toString decides), Date objects (hint Number: the time value), Number/String wrappers, one-element arrays; oracle: ToNumber model (9.3, 9.3.1, 8.12.8); non-trivial = argument is not a number literal; distinct by (function, argument)",
 	Quick:    10000,
 	Thorough: 40000,
 	Gen: func(t *rapid.T) predCase {
 		c := predCase{Fn: rapid.SampledFrom([]string{"isNaN", "isFinite"}).Draw(t, "fn")}
-		k := rapid.SampledFrom([]string{"num", "str", "str", "obj", "objstr", "undef", "null", "bool"}).Draw(t, "kind")
+		k := rapid.SampledFrom([]string{"num", "str", "str", "obj", "objstr", "undef", "null", "bool", "date", "date", "wrapnum", "wrapstr", "arr1", "objboth"}).Draw(t, "kind")
 		c.Arg.Kind = k
 		switch k {
-		case "num", "obj":
+		case "num", "obj", "wrapnum":
 			c.Arg.Lit = harness.NumLit(gen.Double().Draw(t, "v"))
-		case "str", "objstr":
+		case "date":
+			c.Arg.Lit = harness.NumLit(rapid.OneOf(gen.Double(), rapid.SampledFrom([]float64{0, 1, -1, 86400000, 8.64e15, -8.64e15, 8.64e15 + 1, 1.5, -1.5, math.NaN(), 946684800000})).Draw(t, "t"))
+		case "str", "objstr", "wrapstr", "arr1", "objboth":
 			c.Arg.Lit = rapid.SampledFrom(numStrings).Draw(t, "s")
 		case "bool":
 			c.Arg.Lit = rapid.SampledFrom([]string{"true", "false"}).Draw(t, "b")
